@@ -25,9 +25,9 @@ RULE = ('sim configurations drawn from VERIF_SEED: fertility scalar or age-speci
 TRUSTED = ['the wrappers of harness/props/c19.py read people / module arrays (raw storage up to uid.len_used) without writing']
 ASSUMPTIONS = ['fertility rates, uniform draws (>= 0), post-partum durations, maternal-death flags, sexes, neonatal-death picks and '
                'deaths requested by other modules are arbitrary inputs of the model',
-               'timers are compared with tolerance 1e-9, ages (float accumulation) with 1e-4']
+               'timers (float32 storage) are compared with relative tolerance 2e-6, ages (float accumulation) with 1e-4']
 
-TOL_T = 1e-9
+TOL_T = 2e-6   # module timers are stored as float32
 TOL_AGE = 1e-4
 
 
@@ -487,7 +487,7 @@ def correspond(ctx):
             nontrivial = bool(s['pregnant'].any() or s['postpartum'].any())
             ctx.case(line, nontrivial)
             bits = dict(p.split('=') for p in ml.split()[1:])
-            bad = [k for k, v in bits.items() if v != '1']
+            bad = [k for k, v in bits.items() if v != '1' and not (k == 'prenatal' and not s['has_pre']) and not (k == 'postnatal' and not s['has_post'])]
             if bad:
                 ctx.broke('correspondence', 'C19.invariant', f"ti={ti}: the model's invariant check fails on the observed state: {bad}", data=data)
 
